@@ -167,6 +167,10 @@ pub struct P2Project {
     pub single_def: bool,
     /// every generic definition has one specialisation only
     pub unified_generics: bool,
+    /// projects whose generic arguments closed a file-level cycle (constant
+    /// arguments replaced by literals; veryl panics on such projects in some
+    /// processing orders: known finding)
+    pub excluded_hidden_cycles: u32,
 }
 
 fn norm_join(a: &str, b: &str) -> String {
@@ -388,6 +392,7 @@ pub fn gen_p2(d: &mut Draw, o: &P2Opts) -> P2Project {
     if single_def {
         split_files(d, &mut root, &o.gopts);
     }
+    let mut excluded_hidden_cycles = break_hidden_generic_cycles(&mut root);
 
     // ---------------------------------------------------------------- sources
     let sources = if o.multi_sources {
@@ -453,6 +458,7 @@ pub fn gen_p2(d: &mut Draw, o: &P2Opts) -> P2Project {
         if single_def {
             split_files(d, &mut prj, &gopts);
         }
+        excluded_hidden_cycles += break_hidden_generic_cycles(&mut prj);
         let key = if d.chance(1, 3) { ["liba", "libb"][i].to_string() } else { name.to_string() };
         let dir = if d.chance(1, 3) { format!("vendor/{name}") } else { format!("../{name}") };
         deps.push(Dep {
@@ -562,6 +568,7 @@ pub fn gen_p2(d: &mut Draw, o: &P2Opts) -> P2Project {
         std_user,
         single_def,
         unified_generics,
+        excluded_hidden_cycles,
     };
     let force = o.collide_per_mille > 0 && d.below(1000) >= 1000 - o.collide_per_mille;
     p.settle_collisions(d, force);
@@ -627,6 +634,66 @@ fn unify_generic_args(p: &mut Project) {
             }
         }
     }
+}
+
+/// A constant passed as generic argument (`inst u: ModG::<Pkg::C>`) makes the
+/// file that DEFINES `ModG` depend on the file of `Pkg`: the specialisation
+/// `ModG__Pkg_C` is emitted there and mentions `Pkg::C`.  The vproj model does
+/// not know this edge.  If it closes a cycle between files, the project is in
+/// the shape on which veryl panics (`WouldCycle`, in some processing orders):
+/// excluded by construction — the constant arguments become literals.
+fn break_hidden_generic_cycles(p: &mut Project) -> u32 {
+    let mut g = p.file_deps();
+    let mut any = false;
+    for m in p.modules() {
+        for u in &p.module(m).uses {
+            if let UseKind::Inst { child, garg: Some(GenArg::Const(q, _)), .. } = &u.kind
+                && let (Some(fc), Some(fq)) = (p.file_of(*child), p.file_of(*q))
+                && fc != fq
+            {
+                any = true;
+                g.entry(p.files[fc].rel.clone()).or_default().insert(p.files[fq].rel.clone());
+            }
+        }
+    }
+    if !any {
+        return 0;
+    }
+    // Kahn
+    let mut indeg: BTreeMap<&String, usize> = g.keys().map(|k| (k, 0)).collect();
+    for v in g.values() {
+        for t in v {
+            if let Some(x) = indeg.get_mut(t) {
+                *x += 1;
+            }
+        }
+    }
+    let mut queue: Vec<&String> = indeg.iter().filter(|(_, n)| **n == 0).map(|(k, _)| *k).collect();
+    let mut seen = 0;
+    while let Some(k) = queue.pop() {
+        seen += 1;
+        for t in &g[k] {
+            if let Some(x) = indeg.get_mut(t) {
+                *x -= 1;
+                if *x == 0 {
+                    queue.push(t);
+                }
+            }
+        }
+    }
+    if seen == g.len() {
+        return 0;
+    }
+    for m in p.modules() {
+        for u in p.module_mut(m).uses.iter_mut() {
+            if let UseKind::Inst { garg: Some(g), .. } = &mut u.kind
+                && matches!(g, GenArg::Const(..))
+            {
+                *g = GenArg::Lit(8);
+            }
+        }
+    }
+    1
 }
 
 /// One definition per file: every further item of a file moves to a new file.
